@@ -196,7 +196,7 @@ def compare_pair(c, cls, name, ref, got, s_by_geom, margin, gap, tag, stats, ext
   zone = _zone(float(rd["dist"]), margin)
   if abs(dev_w) > tol_dev:
     c.fail(
-      f"C:{name}:dist_inconsistent_with_normal:{zone}" + (":near_touch" if abs(float(gd["dist"])) <= 2e-4 and abs(float(gd["dist"]) - float(rd["dist"])) <= 5e-6 else ""),
+      f"C:{name}:dist_inconsistent_with_normal:{zone}" + (":near_touch" if abs(float(gd["dist"])) <= 2e-4 and abs(float(gd["dist"]) - float(rd["dist"])) <= 2e-5 else ""),
       f"{tag}: MJWarp dist={float(gd['dist']):.6g} but separation along its normal {np.round(n_w, 5).tolist()} is {sep_w:.6g} "
       f"(|diff|={abs(dev_w):.3g} > {tol_dev:.3g}); MuJoCo dist={float(rd['dist']):.6g} n={np.round(n_r, 5).tolist()} sep={sep_r:.6g}; best sep found {best:.6g}",
     )
